@@ -36,12 +36,16 @@ POLICIES = ['keep', 'replace', 'ignore', 'fail', 'unihex', 'callable']
 REGEXES = [
     (r'ab+', r'\\AB'), (r'[A-Z]{2,}', r'{\g<0>}'), (r'\.\.\.', r'\\ldots'), (r'(a)(b)?', r'<\1>'),
     (r'é+', 'fn:E'), (r'\$\$', r'DD'), (r'-->', r'\\textrightarrow'), (r'[α-ω]{2}', r'\\greek '),
+    # patterns whose match depends on what precedes the position (the replacement is applied like re.sub
+    # on the whole string: word boundaries, look-behind and ^ see the full input)
+    (r'\b[A-Z]{2,}\b', r'{\g<0>}'), (r'(?<=[0-9])-(?=[0-9])', r'--'), (r'^\*', r'\\textbullet{}'),
+    (r'\Bb', r'B'), (r'(?<![a-z])a', r'\\A'),
 ]
 WORDS = ['ab', 'X', 'α→', '$', 'é', '--', 'a']
 DICT_CHARS = ['a', 'b', 'é', 'α', '$', ' ', '→', '\\', '{', 'ß', '\u0301']
 DICT_REPLS = ['\\foo', '\\foo{x}', 'X', "\\'e", '', '\\^\\i', '{\\bar}', '\\x y']
 
-TRIGGERS = ['ab', 'abb', 'XY', 'ABC', '...', 'αβ', '$$', '-->', 'éé', 'α→', 'a', 'X', '--', 'é', '$']
+TRIGGERS = ['ab', 'abb', 'XY', 'ABC', '...', 'αβ', '$$', '-->', 'éé', 'α→', 'a', 'X', '--', 'é', '$', 'xAB', '1-2', '*', 'a*b', 'mmHG', '-', 'b']
 _BUILTIN = {}
 
 
